@@ -43,4 +43,25 @@ Proof.
   - eexists. reflexivity.
   - eexists. eexists. split; [reflexivity|]. split; cbn; tauto.
 Qed.
+(* KinConstraints.__init__: the measurement and its three error specifications are stored as given, and the base class receives the
+   twelve positional numbers in ITS order (z_lens, z_source, theta_E, its error, gamma, its error, r_eff, its error, aperture, seeing,
+   numerics, anisotropy model) and the scaling axes by keyword *)
+Definition Gk : fenv := FEnv (fun _ _ => None) (fun n => if String.eqb n "BaseLensConfig.__init__" then Some (rec_base "BaseLensConfig.__init__") else None).
+Variables (sv ind cov cm gin lm : val).
+Theorem kin_constraints_ctor_wiring rg cu :
+  exists o log,
+  yields Gk 120 (CClass "KinConstraints" src_KinConstraints_init) None
+    [num zl; num zs; num tE; num sE; num gm; num sg; num re; num sre; sv; ap; see; numk; VStr "GOM"]
+    [("sigma_v_error_independent", ind); ("sigma_v_error_covariant", cov); ("sigma_v_error_cov_matrix", cm); ("kwargs_lens_light", light);
+     ("gamma_in_scaling", gin); ("log_m2l_scaling", lm); ("gamma_pl_scaling", gpl)] rg cu o cu log
+  /\ fld o "_sigma_v_measured" = Some (arr sv) /\ fld o "_sigma_v_error_independent" = Some (arr ind)
+  /\ fld o "_sigma_v_error_covariant" = Some cov /\ fld o "_sigma_v_error_cov_matrix" = Some cm
+  /\ fld o "_kwargs_lens_light" = Some light /\ fld o "_anisotropy_model" = Some (VStr "GOM")
+  /\ (exists rest, log = [("BaseLensConfig.__init__", num zl :: num zs :: num tE :: num sE :: num gm :: num sg :: num re :: num sre :: ap :: see :: numk :: VStr "GOM" :: rest)]
+        /\ In (VTuple [VStr "kwargs_lens_light"; light]) rest /\ In (VTuple [VStr "gamma_in_scaling"; gin]) rest
+        /\ In (VTuple [VStr "log_m2l_scaling"; lm]) rest /\ In (VTuple [VStr "gamma_pl_scaling"; gpl]) rest).
+Proof.
+  eexists. eexists. split; [yields_with real_fact ltac:(reflexivity)|].
+  cbn. repeat split; try reflexivity. eexists. split; [reflexivity|]. cbn. tauto.
+Qed.
 End BaseCfg.
